@@ -1,4 +1,13 @@
 import OmbottModel.Drv.Range
+import OmbottModel.Drv.Qs
+import OmbottModel.Drv.StaticFile
+import OmbottModel.Drv.Headers
+import OmbottModel.Drv.Cookies
+import OmbottModel.Drv.ErrorPage
+import OmbottModel.Drv.Router
+import OmbottModel.Drv.RouteUrl
+import OmbottModel.Drv.Multipart
+import OmbottModel.Drv.Body
 import OmbottModel.Drv.Wsgi
 /-! Dispatch of a protocol line to the area handlers.  `State` holds the few models that are
 driven as state machines across lines (router, multipart feed, header store). -/
@@ -18,6 +27,15 @@ def step (st : State) (line : String) : State × String :=
     let pure? (r : Option String) : State × String := (st, r.getD "bad-op")
     match area with
     | "range" => pure? (Range.handle rest)
+    | "qs" => pure? (Qs.handle rest)
+    | "static" => pure? (StaticFile.handle rest)
+    | "hdr" => pure? (Headers.handle rest)
+    | "cookie" => pure? (Cookies.handle rest)
+    | "errorpage" => pure? (ErrorPage.handle rest)
+    | "router" => pure? (Router.handle rest)
+    | "routeurl" => pure? (RouteUrl.handle rest)
+    | "mp" => pure? (Multipart.handle rest)
+    | "body" => pure? (Body.handle rest)
     | "wsgi" => pure? (Wsgi.handle rest)
     | _ => (st, "bad-op")
 
